@@ -142,6 +142,34 @@ def main(tier, seed):
                     p3 = pred(fresh2)
                 except Exception as ex:      # noqa
                     p3 = "raised %r" % (ex,)
+                # the same file name again: a twin of the same shape (same data, the two class labels exchanged - a pickle of
+                # the same length) is saved OVER the existing file; what is loaded afterwards must be the twin
+                twin_msg = None
+                try:
+                    m2 = cls(distance=metric, **kw)
+                    Y2 = 1 - Y
+                    if kname == "sup":
+                        m2.fit(X[:n], Y2, I[:n] if pre else None)
+                    elif kname == "semi":
+                        m2.fit(X[:n], Y2, Xq)
+                    elif kname == "knn":
+                        m2.fit(X[:n - 3], Y2[:n - 3], X[n - 3:n], Y2[n - 3:])
+                    else:
+                        m2.fit(X[:n], Y2, I[:n] if pre else None)
+                    b0 = abs_state(m2)
+                    size_before = os.path.getsize(f)
+                    m2.save(f)
+                    stats["resave_same_size"] = stats.get("resave_same_size", 0) + int(os.path.getsize(f) == size_before)
+                    fresh3 = cls(distance="euclidean" if metric != "euclidean" else "manhattan", **({k: v for k, v in kw.items() if k != "pre_computed_distance"}))
+                    fresh3.load(f)
+                    b1 = abs_state(fresh3)
+                    if b1 != b0:
+                        twin_msg = ("a second model (labels exchanged) saved over the existing file of %d bytes: loading the file gives a state that differs from the "
+                                    "saved model in fields %r" % (size_before, [k for k in b0 if b0[k] != b1.get(k)]))
+                    elif pred(fresh3) != pred(m2):
+                        twin_msg = "a second model saved over the existing file: the loaded model predicts differently"
+                except (ZeroDivisionError, IndexError, FloatingPointError):
+                    pass
                 stats["runs"] += 1; stats["kinds"][kname] = stats["kinds"].get(kname, 0) + 1; stats["precomputed"] += int(pre)
                 rep.count_case((kname, metric, pre, X.tobytes()), True)
                 msg = None
@@ -155,6 +183,7 @@ def main(tier, seed):
                     msg = "a second load of the same file (after the first loaded model was used) differs from the saved model (fields %r)" % [k for k in a0 if a0[k] != a3.get(k)]
                 elif not set(fresh_keys) <= set(a0["keys"]):
                     msg = "a fresh object has attributes %r the fitted one lacks" % sorted(set(fresh_keys) - set(a0["keys"]))
+                msg = msg or twin_msg
                 if msg:
                     nviol += 1
                     if nviol <= 3:
